@@ -95,11 +95,13 @@ def run(name, pids, scratch=False):
                     shutil.copytree(os.path.join(ROOT, "harness"), env["VERIF_HARNESS"], symlinks=True, ignore=shutil.ignore_patterns("target", "repo-link"))
             rc, o = sh("./check %s --tier quick" % pid, cwd=ROOT, env=env)
             viol = [l for l in o.splitlines() if l.startswith("VIOLATION")]
-            out = {"check": pid, "tier": "quick", "exit": rc, "violation_lines": len(viol), "wall_s": round(time.time() - t0), "detected": rc == 1 and bool(viol),
+            out = {"check": pid, "tier": "quick", "seed": int(os.environ.get("VERIF_SEED", "0")), "exit": rc, "violation_lines": len(viol), "wall_s": round(time.time() - t0), "detected": rc == 1 and bool(viol),
                    "repo_head": sh("git -C /repo log --format=%h -1")[1].strip(), "verif_head": sh("git -C %s log --format=%%h -1" % ROOT)[1].strip()}
             if rc == 2:
                 out["tool_error"] = o[-600:]
-            meta["runs"] = [r for r in meta["runs"] if r["check"] != pid] + [out]
+            meta = json.load(open(os.path.join(d, "meta.json")))          # re-read: several runs may be recording at the same time
+            meta["runs"] = [r for r in meta["runs"] if not (r["check"] == pid and r.get("seed", 0) == out["seed"])] + [out]
+            json.dump(meta, open(os.path.join(d, "meta.json"), "w"), indent=1)
             print(name, pid, "DETECTED" if out["detected"] else ("TOOL-ERROR" if rc == 2 else "MISSED"), "rc=%d %ds" % (rc, out["wall_s"]))
     finally:
         if scratch:
@@ -108,7 +110,6 @@ def run(name, pids, scratch=False):
             shutil.rmtree(os.path.join(ROOT, "work", "mut_" + name), ignore_errors=True)
         else:
             sh("git -C /repo checkout -- .")
-        json.dump(meta, open(os.path.join(d, "meta.json"), "w"), indent=1)
 
 if __name__ == "__main__":
     if sys.argv[1] == "confirm":
